@@ -362,7 +362,9 @@ func verifSetup() *vRun {
 		verifStopPath()
 	}
 	if variant == MuxerVariantLowLatency {
-		r.base = 7
+		// number of initial gap entries = the number the first real segment is given (URI number = media sequence
+		// number is checked against the served playlists; the statement does not fix the count itself)
+		r.base = r.m.streams[0].nextSegmentID
 	}
 	verifFreezePartDuration(r.m)
 	if variant == MuxerVariantMPEGTS {
